@@ -112,6 +112,24 @@ impl Sut for HllSut {
                     }
                 }
             }
+            "reconstruct" => {
+                // the sketch is replaced by one rebuilt from its own registers, handed over in a vector with spare
+                // capacity (as a caller reading bytes from a file would); everything afterwards (adds, merges, clear,
+                // round trips) runs on the rebuilt sketch
+                let mut v: Vec<u8> = Vec::with_capacity(self.s.registers().len() * 3 + 7);
+                v.extend_from_slice(self.s.registers());
+                let b = self.b;
+                match guarded(|| H::with_registers_and_hash(b, v, CtlBH::identity())) {
+                    Ok(s2) => {
+                        self.s = s2;
+                        "ok".into()
+                    }
+                    Err(m) => {
+                        rec["panic"] = json!(m);
+                        "panic".into()
+                    }
+                }
+            }
             "roundtrip" => {
                 let r = guarded(|| {
                     let txt = serde_json::to_string(&self.s).unwrap();
@@ -221,8 +239,17 @@ pub fn drive(args: &[String]) {
             } else if x < 86 {
                 let (a, bb) = if rng.chance(1, 2) { ("a", "b") } else { ("b", "a") };
                 steps.push(json!({"obj": a, "other": bb, "op": {"name":"merge"}}));
-            } else if x < 94 {
+            } else if x < 92 {
                 steps.push(json!({"obj": obj, "op": {"name":"roundtrip"}}));
+            } else if x < 95 {
+                // rebuilt from its registers, then (often) cleared and / or round-tripped
+                steps.push(json!({"obj": obj, "op": {"name":"reconstruct"}}));
+                if rng.chance(1, 2) {
+                    steps.push(json!({"obj": obj, "op": {"name":"clear"}}));
+                }
+                if rng.chance(2, 3) {
+                    steps.push(json!({"obj": obj, "op": {"name":"roundtrip"}}));
+                }
             } else {
                 steps.push(json!({"obj": obj, "op": {"name":"clear"}}));
             }
@@ -233,6 +260,74 @@ pub fn drive(args: &[String]) {
     println!("STATS {}", json!({"scenarios": n_sc}));
 }
 
+// Hashers of different serialised shapes for the round trip (C20: "same b, registers and hasher"): a unit struct
+// (serialises to null), a newtype around an optional seed (null or a number), a newtype around a number.
+macro_rules! simple_bh {
+    ($name:ident, $inner:ty, $seed:expr) => {
+        #[derive(Clone, Debug, PartialEq, Eq, serde::Serialize, serde::Deserialize)]
+        pub struct $name($inner);
+        impl std::hash::BuildHasher for $name {
+            type Hasher = std::collections::hash_map::DefaultHasher;
+            fn build_hasher(&self) -> Self::Hasher {
+                use std::hash::Hasher;
+                let mut h = std::collections::hash_map::DefaultHasher::new();
+                let f: fn(&$inner) -> u64 = $seed;
+                h.write_u64(f(&self.0));
+                h
+            }
+        }
+    };
+}
+#[derive(Clone, Debug, PartialEq, Eq, serde::Serialize, serde::Deserialize)]
+pub struct UnitBH;
+impl std::hash::BuildHasher for UnitBH {
+    type Hasher = std::collections::hash_map::DefaultHasher;
+    fn build_hasher(&self) -> Self::Hasher {
+        std::collections::hash_map::DefaultHasher::new()
+    }
+}
+simple_bh!(OptBH, Option<u64>, |x| x.unwrap_or(77));
+simple_bh!(NumBH, u64, |x| *x);
+fn roundtrip_with<B>(b: usize, bh: B, kind: &str, tid: u64) -> Value
+where
+    B: std::hash::BuildHasher + Clone + Eq + serde::Serialize + serde::de::DeserializeOwned,
+{
+    let mut s = HyperLogLog::<u64, B>::with_hash(b, bh);
+    for x in 0..200u64 {
+        s.add(&mix64(x));
+    }
+    s.add_hashed(0);
+    let doc = json!({"k":"doc","form":"map","b": b, "kind": "m", "len": 1u64 << b, "fill": "own", "fields": ["registers","b","buildhasher"], "valid": true, "hasher": kind});
+    let mut rec = json!({"k":"p","s":"hllserde","tid":tid,"doc":doc});
+    let r = guarded(|| {
+        let txt = serde_json::to_string(&s).unwrap();
+        serde_json::from_str::<HyperLogLog<u64, B>>(&txt).map(|mut back| {
+            let same = back.b() == s.b() && back.registers() == s.registers() && back.buildhasher() == s.buildhasher() && back == s;
+            // same reaction to further adds (same hasher state): new elements land in the same registers
+            let mut orig = s.clone();
+            for x in 1000..1100u64 {
+                orig.add(&x);
+                back.add(&x);
+            }
+            (back.b(), back.m(), same && orig.registers() == back.registers())
+        })
+    });
+    match r {
+        Err(m) => {
+            rec["res"] = json!("panic");
+            rec["panic"] = json!(m);
+        }
+        Ok(Err(_)) => rec["res"] = json!("err"),
+        Ok(Ok((gb, gm, same))) => {
+            rec["res"] = json!("ok");
+            rec["got_b"] = json!(gb);
+            rec["got_m"] = json!(gm);
+            rec["regs_equal"] = json!(same);
+            rec["panicked_uses"] = json!([]);
+        }
+    }
+    rec
+}
 /// C20: documents generated by TLC (Gen_HLLSerde) are rendered as JSON text, deserialised with
 /// serde_json and, when accepted, exercised under catch_unwind.
 pub fn serde_docs(args: &[String]) {
@@ -309,6 +404,19 @@ pub fn serde_docs(args: &[String]) {
         }
         out.put(&rec);
     }
+    // round trips of sketches over hashers of other serialised shapes (valid documents written by the library itself)
+    let mut extra = 0u64;
+    for b in [4usize, 9, 18] {
+        for rec in [
+            roundtrip_with(b, UnitBH, "unit struct (null)", n + extra + 1),
+            roundtrip_with(b, OptBH(None), "newtype of None (null)", n + extra + 2),
+            roundtrip_with(b, OptBH(Some(5)), "newtype of Some", n + extra + 3),
+            roundtrip_with(b, NumBH(9), "newtype of a number", n + extra + 4),
+        ] {
+            out.put(&rec);
+        }
+        extra += 4;
+    }
     out.flush();
-    println!("STATS {}", json!({"docs": n}));
+    println!("STATS {}", json!({"docs": n, "hasher_roundtrips": extra}));
 }
